@@ -571,7 +571,9 @@ Definition step (s : state) (l : label) : option state :=
               if (backfilled s <=? j) && (j <=? length (txs s))
               then Some (set_pc (set_backfill s j sz) (PCkpted m hg pre (flen (txs s)))) else None
           | Full | Restart =>
-              if j =? length (txs s)
+              (* the PRAGMA reports SQLITE_BUSY in its result row, which execCheckpoint does not
+                 read: a reader or a writer the busy handler gave up on leaves a partial backfill *)
+              if (backfilled s <=? j) && (j <=? length (txs s))
               then Some (set_pc (set_backfill s j sz) (PCkpted m hg pre (flen (txs s)))) else None
           | Truncate =>
               if j =? length (txs s)
